@@ -229,9 +229,20 @@ func c15Number(c *Ctx, kind, text string, seed int64) {
 // c15Long: long texts behind long prefixes (the encoders size what they reserve from the length of the text and the
 // room that is left: a reservation counted from the start of b instead of from its end only shows with a prefix
 // longer than the text)
+// a text marshaler that also has the AppendText method of newer Go versions (an encoder may let it write in place)
+type c15Appender string
+
+func (a c15Appender) MarshalText() ([]byte, error) { return []byte(a), nil }
+func (a c15Appender) AppendText(b []byte) ([]byte, error) {
+	return append(b, a...), nil
+}
+
 func c15Long(c *Ctx, kind string, n int, seed int64) {
 	var x any
 	switch kind {
+	case "appendtext":
+		x = []any{c15Appender(strings.Repeat("t", n/2) + "say \"hi\" <to> them\n" + strings.Repeat("u", n-n/2)), map[c15Appender]int{c15Appender("k\"" + strings.Repeat("k", n%70)): 1},
+			struct{ A c15Appender }{c15Appender("\\" + strings.Repeat("z", n))}}
 	case "plain":
 		x = strings.Repeat("x", n)
 	case "escaped":
@@ -269,7 +280,7 @@ func c15Long(c *Ctx, kind string, n int, seed int64) {
 }
 
 func c15Longs(c *Ctx) {
-	for _, kind := range []string{"plain", "escaped", "bytes", "member", "elements", "raw", "string-option"} {
+	for _, kind := range []string{"plain", "escaped", "bytes", "member", "elements", "raw", "string-option", "appendtext"} {
 		for _, n := range []int{7, 8, 63, 64, 255, 256, 257, 300, 1000, 1023, 1024, 4095, 4097} {
 			c15Long(c, kind, n, c.Seed)
 		}
